@@ -1193,11 +1193,15 @@ class Exec:
                 from . import objects
                 val = objects.new_symdict(self, st, name=tgt.id)
             sl = getattr(self.k, "sym_lists", {}) if self.k is not None else {}
-            if tgt.id in sl and isinstance(val, LRef) and not st.heap[val.sid].items:
+            if tgt.id in sl and sl[tgt.id] == "str" and isinstance(val, LRef) and all(isinstance(x, StrV) for x in st.heap[val.sid].items):
+                # a list of strings that grows by a symbolic number of entries: only its length is tracked (strings are opaque)
+                from . import objects
+                val = objects.new_symlist(self, st, None, length=z3.IntVal(len(st.heap[val.sid].items)), name=tgt.id, elem_sort=I)
+            elif tgt.id in sl and isinstance(val, LRef) and not st.heap[val.sid].items:
                 from . import objects
                 cls = sl[tgt.id]
-                val = objects.new_symlist(self, st, cls if cls not in ("real", "int", "bool") else None, name=tgt.id,
-                                          elem_sort={"real": R, "int": I, "bool": B}.get(cls))
+                val = objects.new_symlist(self, st, cls if cls not in ("real", "int", "bool", "boolarr") else None, name=tgt.id,
+                                          elem_sort={"real": R, "int": I, "bool": B, "boolarr": z3.ArraySort(I, B)}.get(cls))
             st.env[tgt.id] = val
             return
         if isinstance(tgt, (ast.Tuple, ast.List)):
